@@ -62,7 +62,7 @@ def run(tier, seed, replay=None):
         ob["failures"].append("places harness does not compile against the current source: " + str(e)[-400:])
     return ck.finish(
         ob,
-        rule="exhaustive: every ordered pair of units of every dimension, every tools::conv constant, every element symbol of "
+        rule="mass probes away from the tabulated masses (outside the table, in the gaps; tolerances 0.01 and 0.6) judged against the generated mass table. exhaustive: every ordered pair of units of every dimension, every tools::conv constant, every element symbol of "
              "the real code, compared with the regenerated tables (rel 1e-13) and judged against SI/CODATA 2018, the quotient of base "
              "conversions and the cross-place list; other places: the factor applied by each reader / writer code path (LAMMPS dump reader with x y z, xu yu zu and "
              "xs ys zs columns, box, velocity, force; LAMMPS dump writer; LAMMPS data reader; XYZ and PDB readers and writers) observed on files with known "
